@@ -460,6 +460,97 @@ def write_scrub_baseline(P):
     return sum(len(v) for v in cov.values())
 
 
+
+# ---------------------------------------------------------------------------------------------------------------------------
+# S11 / S12: which locals a C function scrubs, and how much of each
+
+LOCAL_SCRUB_BASELINE = os.path.join(DATA, 'local_scrub_baseline.json')
+
+
+def _obj_size(P, ty):
+    m = re.search(r'\[(\d+)\]((?:\[\d+\])*)\s*$', ty or '')
+    if not m:
+        return None
+    el = ty[:m.start()].strip()
+    n = int(m.group(1))
+    for d in re.findall(r'\[(\d+)\]', m.group(2)):
+        n *= int(d)
+    es = {'uint8_t': 1, 'unsigned char': 1, 'char': 1, 'uint16_t': 2, 'uint32_t': 4, 'unsigned int': 4, 'int': 4, 'uint64_t': 8}.get(el.replace('const ', ''))
+    return n * es if es else None
+
+
+def local_scrubs(P):
+    """{function: {type of local: number of distinct locals of that type handed whole to a scrub call}} and the scrub calls with sizes"""
+    res, calls = {}, []
+    seen = set()
+    for tu in P.tus():
+        if tu == 'x86_64__self_test.c':
+            continue
+        for f in P.funcs(tu):
+            if (f.name, f.loc) in seen:
+                continue
+            seen.add((f.name, f.loc))
+            types = {}
+            for _, _, ev in f.events(('decl',)):
+                for d in ev['d']:
+                    types[d['n']] = d.get('ty', '')
+            per = {}
+            for b, i, ev in f.events(('call',)):
+                t = scrub_target(ev)
+                if not t or t not in types:
+                    continue
+                per.setdefault(re.sub(r'\d+', 'N', types[t]), set()).add(t)
+                calls.append((f, ev, t, types[t]))
+            if per:
+                res[f.name] = {k: len(v) for k, v in per.items()}
+    return res, calls
+
+
+def write_local_scrub_baseline(P):
+    res, _ = local_scrubs(P)
+    with open(LOCAL_SCRUB_BASELINE, 'w') as fh:
+        json.dump({'note': 'per C function: for each (digit-normalised) type, how many distinct locals of that type the function hands to a scrub '
+                           'call on the reference tree', 'functions': res}, fh, indent=0, sort_keys=True)
+    return len(res)
+
+
+def run_s11(chk, P):
+    s11 = chk.rule('S11', 'every C function still scrubs at least as many distinct locals of each type as on the reference tree (a scrub call '
+                          'dropped, or aimed twice at one of two sibling locals, leaves the other behind)', floor=80)
+    s12 = chk.rule('S12', 'a scrub call handed a whole local array covers the whole array (constant size not smaller than the object)', floor=30)
+    if not os.path.exists(LOCAL_SCRUB_BASELINE):
+        chk.broken('local scrub baseline missing')
+        return
+    base = json.load(open(LOCAL_SCRUB_BASELINE))['functions']
+    cur, calls = local_scrubs(P)
+    fl = {}
+    for f, ev, t, ty in calls:
+        fl.setdefault(f.name, f)
+    for name, types in sorted(base.items()):
+        if name not in cur and name not in fl:
+            # the function may be gone (renamed): nothing to compare; if it exists without any scrub it is a finding
+            exists = any(True for _ in P.find(name))
+            if not exists:
+                continue
+        have = cur.get(name, {})
+        for ty, n in sorted(types.items()):
+            s11.check(have.get(ty, 0) >= n, '%s:%s' % (name, ty), (fl.get(name).loc if name in fl else name),
+                      '%s scrubs %d local(s) of type %s; the reference tree scrubs %d' % (name, have.get(ty, 0), ty, n))
+    for f, ev, t, ty in calls:
+        a = ev['e'].get('a', [])
+        if len(a) < 2:
+            continue
+        first = cf.strip_casts(a[0])
+        whole = isinstance(first, dict) and (first.get('k') == 'ref' or (first.get('k') == 'un' and first.get('op') == '&' and
+                                                                        cf.strip_casts(first['e']).get('k') == 'ref'))
+        size = _obj_size(P, ty)
+        n = cf.evalc(a[1])
+        if not whole or size is None or n is None:
+            continue
+        s12.check(int(n) >= size, '%s:%s@%s' % (f.name, t, ev['loc'].split('/')[-1]), ev['loc'],
+                  '%s scrubs %d bytes of `%s` (%s, %d bytes): the rest of the buffer keeps its contents' % (f.name, int(n), t, ty, size))
+
+
 def write_baseline(P):
     cc = c18.callable_set(P)
     clean = []
@@ -489,7 +580,10 @@ def run(chk):
     run_s2(chk, P)
     run_s8(chk)
     run_s9(chk, P)
+    from . import twins
+    twins.rule_copy_siblings(chk, P, 'X5', floor=100)
     run_s10(chk, P)
+    run_s11(chk, P)
     # S4: road block coverage and whole-manager clears (shared)
     inits.rule_reattach(chk, P)
     inits.rule_reset(chk, P, 'S4.')
@@ -499,4 +593,4 @@ if __name__ == '__main__':
     import sys
     if '--write-baseline' in sys.argv:
         P_ = cf.Program()
-        print(write_baseline(P_), write_scrub_baseline(P_))
+        print(write_baseline(P_), write_scrub_baseline(P_), write_local_scrub_baseline(P_))
